@@ -333,8 +333,13 @@ class World:
         pdiff.LOG.setLevel(logging.DEBUG)
         pdiff.LOG.propagate = False
         self.fs.h_mkdirs(ROOT + '/src')
+        if any('/link/' in f for f in self.files):
+            # src/link -> src/a/deep: `src/link/../mod.py` is physically src/a/mod.py, lexically src/mod.py
+            self.fs.h_mkdirs(ROOT + '/src/a/deep')
+            self.fs.h_symlink(ROOT + '/src/link', ROOT + '/src/a/deep')
         for f in self.files:
-            self.fs.h_mkdirs(os.path.dirname(f))
+            if '/link/' not in f:
+                self.fs.h_mkdirs(os.path.dirname(f))
         self.procs = [Proc(self, i) for i in range(cfg.get('nproc', 1))]
         return self
 
